@@ -83,12 +83,16 @@ Definition tidx_from_blob (l : bytes) : outcome (list (N * N)) :=
   let count := N.of_nat (length l) / 12 in
   if negb (count * 12 =? N.of_nat (length l)) then Err else tidx_read (N.to_nat count) l.
 
-(* add_offset: `r.offset += offset` (unchecked u64) *)
-Fixpoint tidx_add_offset (o : N) (idx : list (N * N)) : outcome (list (N * N)) :=
+(* add_offset: `r.offset = r.offset.saturating_add(offset)`; variant 0 = the unchecked `r.offset += offset`
+   of the pinned source (overflow: a panic in the dev profile, a wrap in release) *)
+Fixpoint tidx_add_offset_v (variant : N) (o : N) (idx : list (N * N)) : outcome (list (N * N)) :=
   match idx with
   | [] => Ok []
-  | (off, len) :: r => if u64_max <? off + o then Overflow else omap (cons (off + o, len)) (tidx_add_offset o r)
+  | (off, len) :: r =>
+      if (variant =? 0) && (u64_max <? off + o) then Overflow
+      else omap (cons (N.min (off + o) u64_max, len)) (tidx_add_offset_v variant o r)
   end.
+Definition tidx_add_offset := tidx_add_offset_v 1.
 
 (* ---------- file header (66 bytes; file_header.rs) ---------- *)
 Definition vt_magic : bytes := [118; 101; 114; 115; 97; 116; 105; 108; 101; 115; 95; 118; 48; 50].   (* "versatiles_v02" *)
